@@ -810,6 +810,12 @@ def cmd_call_args(req):
                             variables=payload.get("variables"), has_variables="variables" in payload)
         except Exception:
             captured["raw"] = body[:2000].decode("latin-1")
+        if req.get("respond") == "execute" and captured.get("query") is not None:
+            # answer with a conformant response (the sent document executed by graphql-core), so that the part of the
+            # method AFTER the request (get_data, <ResultClass>.model_validate) runs too
+            res, _t = STATE["run"](captured["query"], captured.get("variables"), captured.get("operationName"),
+                                   req.get("plan") or {"null": 0.0, "lens": [1]})
+            return httpx.Response(200, json={"data": res.data})
         return httpx.Response(200, json=req.get("response_body") or {"data": None, "errors": [{"message": "stop"}]})
 
     out = {"request": captured, "exc": None}
